@@ -2872,15 +2872,23 @@ sexp sexp_read_float_tail (sexp ctx, sexp in, double whole, int negp) {
   int c, c2;
   sexp exponent=SEXP_VOID;
   long double val=0.0, scale=10, e=0.0;
+  /* the fraction digits, for a correctly rounded conversion below; */
+  /* digits beyond this many cannot change a double */
+  char digits[800], *numbuf;
+  int ndigits=0;
   sexp_gc_var1(res);
   sexp_gc_preserve1(ctx, res);
   for (c=sexp_read_char(ctx, in); sexp_isdigit(c);
-       c=sexp_read_char(ctx, in), val*=10, scale*=10)
+       c=sexp_read_char(ctx, in), val*=10, scale*=10) {
     val += digit_value(c);
+    if (ndigits < (int)sizeof(digits)) digits[ndigits++] = c;
+  }
 #if SEXP_USE_PLACEHOLDER_DIGITS
   for (; c==SEXP_PLACEHOLDER_DIGIT;
-       c=sexp_read_char(ctx, in), val*=10, scale*=10)
+       c=sexp_read_char(ctx, in), val*=10, scale*=10) {
     val += sexp_placeholder_digit_value(10);
+    if (ndigits < (int)sizeof(digits)) digits[ndigits++] = '0' + sexp_placeholder_digit_value(10);
+  }
 #endif
   val /= scale;
   val += whole;
@@ -2901,6 +2909,22 @@ sexp sexp_read_float_tail (sexp ctx, sexp in, double whole, int negp) {
 #endif
     e = (sexp_fixnump(exponent) ? sexp_unbox_fixnum(exponent)
          : sexp_flonump(exponent) ? sexp_flonum_value(exponent) : 0.0);
+  }
+  /* Let strtod convert "<whole>.<fraction>e<exponent>" in one correctly */
+  /* rounded step instead of scaling by inexact powers of ten. */
+  if (whole == trunc(whole) && !isinf(whole) && e == trunc(e) && fabsl(e) < 100000
+      && (numbuf = (char*) malloc(400 + ndigits + 32)) != NULL) {
+    c2 = snprintf(numbuf, 400, "%.0f", whole);
+    numbuf[c2++] = '.';
+    memcpy(numbuf + c2, digits, ndigits);
+    c2 += ndigits;
+    snprintf(numbuf + c2, 32, "e%ld", (long)e);
+    val = strtod(numbuf, NULL);
+    if (negp) val *= -1;
+    e = 0.0;
+    free(numbuf);
+  }
+  if (is_precision_indicator(c)) {
 #if SEXP_USE_COMPLEX
     if (sexp_complexp(res)) {
       if (sexp_complex_real(res) == SEXP_ZERO) {
